@@ -27,7 +27,7 @@ TRUSTED = [
 ]
 ASSUMPTIONS = [
     'all Parameters of a history are param.String(default=str(d), regex="^[0-hi]$") (not Dynamic; 50% of random histories, all exhaustive ones) '
-    'or param.Integer(default=d, bounds=(None, hi)) (Dynamic), with an explicit default; values are the ints 0..9',
+    'or param.Integer(default=d, bounds=(None, hi)) (Dynamic), with an explicit default; values are the ints 0..9 and None (every Parameter is allow_None=True; None crosses the boundary as -1, which passes every upper bound like None does)',
     'the inherited `name` parameter is filtered out of every observation; watchers, dynamic values and '
     'Parameter-valued class assignment (`C.y = param.Integer()`, which never updates a cache and leaves the Parameter unnamed) are outside the model',
     'class-level / instance-level assignment to a name that is not a Parameter there (plain Python attribute) is skipped on both sides',
@@ -47,7 +47,7 @@ COVERAGE_TARGETS = [
     'instSet:ok:makes-copy', 'instSet:ok:has-copy', 'instSet:ValueError:has-copy', 'instSet:skip:makes-copy',
     'instParam:ok:makes-copy', 'instParam:ok:has-copy', 'instParam:KeyError:makes-copy',
     'shape:chain3', 'shape:chain4', 'shape:diamond', 'shape:diamond-tail', 'shape:two-roots', 'shape:fork',
-    'obs:stale-window', 'kind:String', 'kind:Integer',
+    'obs:stale-window', 'kind:String', 'kind:Integer', 'value:None-on-instance', 'value:None-class-default',
 ]
 
 NAMES = ['x', 'y', 'z']
@@ -95,13 +95,17 @@ def run_impl(case):
 
     dyn = case['kind'] == 'Integer'
     # values cross the boundary as small ints; the String kind stores them as one-digit strings
-    enc = (lambda v: v) if dyn else (lambda v: str(v))
-    dec = (lambda v: v) if dyn else (lambda v: None if v is None else int(v))
+    # every Parameter is declared allow_None=True; the value -1 of a case stands for None
+    ABSENT = object()
+    enc = (lambda v: None if v == -1 else v) if dyn else (lambda v: None if v == -1 else str(v))
+    dec = lambda v: None if v is ABSENT else (-1 if v is None else int(v))
 
     def mkparam(d, hi):
         if dyn:
-            return param.Integer(default=d, bounds=(None, hi)) if hi is not None else param.Integer(default=d)
-        return param.String(default=str(d), regex=f'^[0-{hi}]$') if hi is not None else param.String(default=str(d))
+            return (param.Integer(default=d, bounds=(None, hi), allow_None=True) if hi is not None
+                    else param.Integer(default=d, allow_None=True))
+        return (param.String(default=str(d), regex=f'^[0-{hi}]$', allow_None=True) if hi is not None
+                else param.String(default=str(d), allow_None=True))
 
     try:
         classes = []
@@ -132,7 +136,7 @@ def run_impl(case):
                 p = pr[n] if listed else None
                 st = static(cls, n)
                 rows.append([listed, pid(p), pid(st), dec(p.default) if p is not None else None,
-                             dec(getattr(cls, n)) if st is not None else None, dec(vals.get(n)), dec(ser.get(n))])
+                             dec(getattr(cls, n)) if st is not None else None, dec(vals.get(n, ABSENT)), dec(ser.get(n, ABSENT))])
             return {'c': c, 'order': order, 'rows': rows}
 
         def obs_inst(i):
@@ -147,7 +151,7 @@ def run_impl(case):
                 ip = o._param__private.params.get(n)
                 gov = ip if ip is not None else st
                 rows.append([n in pr, pid(ex.get(n)), pid(gov), dec(getattr(o, n)) if st is not None else None,
-                             dec(vals.get(n)), dec(ser.get(n))])
+                             dec(vals.get(n, ABSENT)), dec(ser.get(n, ABSENT))])
             return {'i': i, 'rows': rows}
 
         out = []
@@ -267,9 +271,14 @@ def _directed():
         out.append((shape, decls, ops, 'end'))
     # Dynamic Parameter type: values() of an instance reads the per-instance copy's default
     out2 = [('chain3', D3, [{'op': 'newInst', 'c': 2, 'kw': []}, {'op': 'instParam', 'i': 0, 'n': 'y'},
-                            {'op': 'clsSet', 'c': 0, 'n': 'y', 'v': 4}], 'end')]
+                            {'op': 'clsSet', 'c': 0, 'n': 'y', 'v': 4}], 'end'),
+            # an instance value that is None (-1) is a value, not "unset"
+            ('chain3', D3, [{'op': 'newInst', 'c': 2, 'kw': [['y', -1]]}, {'op': 'instSet', 'i': 0, 'n': 'x', 'v': -1},
+                            {'op': 'clsSet', 'c': 0, 'n': 'y', 'v': 4}, {'op': 'clsSet', 'c': 1, 'n': 'x', 'v': -1},
+                            {'op': 'newInst', 'c': 2, 'kw': []}, {'op': 'instSet', 'i': 1, 'n': 'x', 'v': 0}], 'all')]
     return [_finish(s, d, o, p) for s, d, o, p in out] + \
-           [_finish(s, d, o, p, kind='Integer') for s, d, o, p in out[:7] + out2]
+           [_finish(s, d, o, p, kind='Integer') for s, d, o, p in out[:7] + out2] + \
+           [_finish(s, d, o, p) for s, d, o, p in out2[1:]]
 
 
 def _alphabet(ncls):
@@ -305,19 +314,19 @@ def _random_case(rng):
         if r < 0.2:
             op = {'op': 'read', 'c': c}
         elif r < 0.42:
-            op = {'op': 'clsSet', 'c': c, 'n': n, 'v': rng.randint(0, 8)}
+            op = {'op': 'clsSet', 'c': c, 'n': n, 'v': -1 if rng.random() < 0.1 else rng.randint(0, 8)}
         elif r < 0.62:
             hi = rng.choice([None, None, None, 5, 7])
             d = rng.randint(0, 4) if rng.random() < 0.8 else rng.randint(5, 9)
             op = {'op': 'addParam', 'c': c, 'n': n, 'd': d, 'hi': hi}
         elif r < 0.72 or ninst == 0:
-            kw = [[m, rng.randint(0, 7)] for m in NAMES if rng.random() < 0.3]
+            kw = [[m, -1 if rng.random() < 0.15 else rng.randint(0, 7)] for m in NAMES if rng.random() < 0.3]
             if rng.random() < 0.05:
                 kw.append(['q', 1])
             op = {'op': 'newInst', 'c': c, 'kw': kw}
             ninst += 1
         elif r < 0.88:
-            op = {'op': 'instSet', 'i': rng.randrange(ninst), 'n': n, 'v': rng.randint(0, 8)}
+            op = {'op': 'instSet', 'i': rng.randrange(ninst), 'n': n, 'v': -1 if rng.random() < 0.2 else rng.randint(0, 8)}
         else:
             op = {'op': 'instParam', 'i': rng.randrange(ninst), 'n': n}
         ops.append(op)
@@ -354,6 +363,11 @@ def cases(rng, tier, worker, nworkers):
 
 def tags(case, impl):
     t = ['shape:' + case['shape'], 'kind:' + case['kind'], f'len={min(len(case["steps"]), 10)}' + ('+' if len(case['steps']) >= 10 else '')]
+    for st in case['steps']:
+        if st['op'] == 'instSet' and st['v'] == -1 or st['op'] == 'newInst' and any(v == -1 for _, v in st['kw']):
+            t.append('value:None-on-instance')
+        if st['op'] == 'clsSet' and st['v'] == -1:
+            t.append('value:None-class-default')
     dirty = False   # a mutation happened while some step did not observe everything: caches may have been stale/unfilled
     for st in case['steps']:
         if st['op'] in ('clsSet', 'addParam') and dirty:
